@@ -43,7 +43,7 @@ impl Address {
         if let Some(forwarded) = headers.get("X-Forwarded-For") {
             let mut proxies: Vec<IpAddr> = forwarded
                 .split(',')
-                .filter_map(|s| IpAddr::from_str(s).ok())
+                .filter_map(|s| IpAddr::from_str(s.trim()).ok())
                 .collect();
 
             if proxies.is_empty() {
